@@ -299,7 +299,7 @@ fn project_from_sources(id: usize, label: &str, sources: &[(&str, &str)]) -> Pro
 
 /// minimised witnesses of past findings (also stored, for readers, in /verif/corpus/C14/*.json); always run first
 fn corpus_projects() -> Vec<(Project, Vec<CfgT>)> {
-    let named = Some(GenT { mode: None, name: None, export: Some(ExportT { default: Some(false), result: None, vars: None }) });
+    let named = Some(GenT { mode: None, ty: None, name: None, export: Some(ExportT { default: Some(false), result: None, vars: None }) });
     vec![
         (project_from_sources(0, "colliding-variable-names/operation-vs-fragment",
             &[("main.graphql", "query Foo { a u { ...FooQuery } }\nfragment FooQuery on U { id }\n")]),
@@ -368,7 +368,7 @@ struct NameT { result: Option<String>, vars: Option<String>, ftype: Option<Strin
 #[derive(Clone, Debug, Default)]
 struct ExportT { default: Option<bool>, result: Option<bool>, vars: Option<bool> }
 #[derive(Clone, Debug, Default)]
-struct GenT { mode: Option<u8>, name: Option<NameT>, export: Option<ExportT> }
+struct GenT { mode: Option<u8>, ty: Option<Option<bool>>, name: Option<NameT>, export: Option<ExportT> }
 type CfgT = Option<GenT>;
 
 const MODES: [&str; 3] = ["with-loader-ts-5.0", "with-loader-ts-4.0", "standalone-ts-4.0"];
@@ -387,8 +387,9 @@ fn coq_cfg(c: &CfgT) -> String {
     let os = |s: &Option<String>| coq_opt(s, |x| coq_str(x));
     match c {
         None => "None".into(),
-        Some(g) => format!("(Some (GenT {} {} {}))",
+        Some(g) => format!("(Some (GenT {} {} {} {}))",
             coq_opt(&g.mode, |m| COQ_MODES[*m as usize].to_string()),
+            coq_opt(&g.ty, |t| format!("(TypeT {})", ob(t))),
             coq_opt(&g.name, |n| format!("(NameT {} {} {} {} {} {} {} {})", os(&n.result), os(&n.vars), os(&n.ftype), ob(&n.cap), os(&n.q), os(&n.m), os(&n.s), os(&n.f))),
             coq_opt(&g.export, |e| format!("(ExportT {} {} {})", ob(&e.default), ob(&e.result), ob(&e.vars)))),
     }
@@ -413,7 +414,12 @@ fn render_cfg(c: &CfgT, rng: &mut Rng) -> (String, &'static str) {
             if let Some(m) = g.mode { gen.insert("mode".into(), json!(MODES[m as usize])); }
             if rng.chance(1, 3) { gen.insert("schemaOutput".into(), json!("./src/generated/schema.d.ts")); }
             if rng.chance(1, 6) { gen.insert("emitSchemaRuntime".into(), json!(true)); }
-            if rng.chance(1, 6) { gen.insert("type".into(), json!({"allowUndefinedAsOptionalInput": false})); }
+            if let Some(t) = &g.ty {
+                let mut tm = Map::new();
+                if let Some(b) = t { tm.insert("allowUndefinedAsOptionalInput".into(), json!(b)); }
+                if rng.chance(1, 4) { tm.insert("scalarTypes".into(), json!({"Date": "string"})); }
+                gen.insert("type".into(), Value::Object(tm));
+            }
             if let Some(n) = &g.name {
                 let mut nm = Map::new();
                 let mut put_s = |k: &str, v: &Option<String>, rng: &mut Rng| match v {
@@ -477,8 +483,11 @@ fn make_cfg(rng: &mut Rng, d: [usize; 4], mode: usize, suffixes: u8) -> CfgT {
     if all_absent && rng.chance(1, 2) { return None; }
     let name_absent = name.cap.is_none() && suffixes == 0;
     let export_absent = d[0] == 0 && d[1] == 0 && d[2] == 0;
+    // generate.type.allowUndefinedAsOptionalInput: section absent / empty / true / false
+    let ty = match rng.below(8) { 0 | 1 => Some(Some(false)), 2 => Some(Some(true)), 3 => Some(None), _ => None };
     Some(GenT {
         mode: if mode == 0 { None } else { Some((mode - 1) as u8) },
+        ty,
         name: if name_absent && rng.chance(1, 2) { None } else { Some(name) },
         export: if export_absent && rng.chance(1, 2) { None } else { Some(export) },
     })
@@ -554,7 +563,7 @@ fn cli_generate(cli: &str, dir: &Path, pr: &Project, cfg_text: &str, format: &st
 
 // ------------------------------------------------------------------ bodies (the unmodelled sub-sequences)
 
-struct Bodies { ty: Vec<Vec<Wop>>, vars: Vec<Vec<Wop>>, rt: Vec<String> }
+struct Bodies { ty: Vec<Vec<Wop>>, vars: Vec<Vec<Wop>>, vars_strict: Vec<Vec<Wop>>, rt: Vec<String> }
 
 fn is_w(o: Option<&Wop>, c: &str) -> bool { matches!(o, Some(Wop::W(x)) if x == c) }
 
@@ -563,7 +572,7 @@ fn is_w(o: Option<&Wop>, c: &str) -> bool { matches!(o, Some(Wop::W(x)) if x == 
 /// model's op list from these pieces and compares it with the complete recorded list.
 fn cut_bodies(doc: &OperationDocument, dts: &[Wop], js: &[Wop]) -> Bodies {
     let n = doc.definitions.len();
-    let mut b = Bodies { ty: vec![vec![]; n], vars: vec![vec![]; n], rt: vec![String::new(); n] };
+    let mut b = Bodies { ty: vec![vec![]; n], vars: vec![vec![]; n], vars_strict: vec![vec![]; n], rt: vec![String::new(); n] };
     let mut i = 2usize; // header: two chunks
     let until = |i: &mut usize, stop: &str| -> Vec<Wop> {
         let mut v = vec![];
@@ -686,7 +695,11 @@ fn main() {
         let ref_cfg = parse_config("schema: x\n").expect("reference config");
         let ref_dts = run_dts(&ref_cfg, &schema, &pr.doc);
         let ref_js = run_js(&ref_cfg, &pr.doc);
-        let bodies = cut_bodies(&pr.doc, &ref_dts, &ref_js);
+        let mut bodies = cut_bodies(&pr.doc, &ref_dts, &ref_js);
+        // second reference run: the variables types as printed with allowUndefinedAsOptionalInput: false
+        let ref_cfg2 = parse_config("schema: x\nextensions:\n  nitrogql:\n    generate:\n      type:\n        allowUndefinedAsOptionalInput: false\n").expect("reference config 2");
+        let ref_dts2 = run_dts(&ref_cfg2, &schema, &pr.doc);
+        bodies.vars_strict = cut_bodies(&pr.doc, &ref_dts2, &ref_js).vars;
         let n = pr.doc.definitions.len();
         let p = format!("p{}", pid);
         let mut prelude = String::new();
@@ -695,13 +708,15 @@ fn main() {
         for k in 0..n {
             let _ = writeln!(prelude, "Definition {p}_t{k} : list wop := {}.", coq_list(&bodies.ty[k], coq_wop));
             let _ = writeln!(prelude, "Definition {p}_v{k} : list wop := {}.", coq_list(&bodies.vars[k], coq_wop));
+            let _ = writeln!(prelude, "Definition {p}_s{k} : list wop := {}.", coq_list(&bodies.vars_strict[k], coq_wop));
             let _ = writeln!(prelude, "Definition {p}_r{k} : str := {}.", coq_str(&bodies.rt[k]));
             named_seqs.push((format!("{p}_t{k}"), &bodies.ty[k]));
             named_seqs.push((format!("{p}_v{k}"), &bodies.vars[k]));
+            named_seqs.push((format!("{p}_s{k}"), &bodies.vars_strict[k]));
             named_strs.push((format!("{p}_r{k}"), &bodies.rt[k]));
         }
         let _ = writeln!(prelude, "Definition {p}_B : list defbody := {}.",
-            coq_list(&(0..n).collect::<Vec<_>>(), |k| format!("Body {p}_t{k} {p}_v{k} {p}_r{k}")));
+            coq_list(&(0..n).collect::<Vec<_>>(), |k| format!("Body {p}_t{k} {p}_v{k} {p}_s{k} {p}_r{k}")));
         let ids: Vec<String> = (0..n).filter_map(|k| json_id(&bodies.rt[k]).map(|id| format!("({p}_r{k}, {id})"))).collect();
         let _ = writeln!(prelude, "Definition {p}_ids : list (str * rid) := {}.", coq_list(&ids, |s| s.clone()));
         let _ = writeln!(prelude, "Definition {p}_doc : doc := {}.", coq_doc(&pr.doc));
